@@ -106,8 +106,21 @@ def run(ctx):
     for b, i, s, f, rv in inv:
         per_field.setdefault(f, []).append((b, i, s, rv))
     # constructor-like: `new`, derived Clone, and helpers called only with a node that is being constructed
-    def is_ctor(b):
-        return b.path in ctors or b.name == "new" or "Clone" in b.path or b.name == "set_head_node"
+    from callgraph import CallGraph
+    cg_ = CallGraph(prog, crates=["suiron-lib"])
+    callers_of = {}
+    for pth, tgts in cg_.edges.items():
+        for tg in tgts:
+            callers_of.setdefault(tg, set()).add(pth)
+
+    def is_ctor(b, depth=0):
+        if b.path in ctors or b.name == "new" or "Clone" in b.path:
+            return True
+        # a private helper reached only from the constructors (part of building the node, split off)
+        if b.is_pub or b.kind not in ("Fn", "AssocFn") or depth > 3:
+            return False
+        cs = callers_of.get(b.path, set()) - {b.path}
+        return bool(cs) and all(c in cg_.nodes and is_ctor(cg_.nodes[c], depth + 1) for c in cs)
     for f in sorted(per_field):
         bad = None
         for b, i, s, rv in per_field[f]:
